@@ -916,6 +916,20 @@ def pct_chooser(rng, depth=2, horizon=300):
   return choose
 
 
+def chooser_for(case, tag, default_switch=0.4):
+  """the schedule generator of a randomly scheduled case: case['pct'] (0 = uniform random with case['switch'], n = PCT of
+  depth n over case['horizon'] steps); when the case does not say, a quarter of the cases each use PCT depth 2 and 3"""
+  from harness import common
+  rseed = case.get('rseed', 0)
+  pct = case.get('pct')
+  if pct is None:
+    pct = [0, 0, 2, 3][int(rseed) % 4] if isinstance(rseed, int) else 0
+  rng = common.Rng('%s/%s' % (tag, rseed))
+  if pct:
+    return pct_chooser(rng, pct, case.get('horizon', [150, 400, 1000][int(rseed) // 4 % 3] if isinstance(rseed, int) else 300))
+  return random_chooser(rng, case.get('switch', default_switch))
+
+
 def random_chooser(rng, switch_prob=0.3):
   def choose(s, runnable, cur):
     order = sorted(runnable, key=lambda t: t.tid)
